@@ -90,6 +90,18 @@ CLAIMED = {
         "eps in {1e-6, 1e-3, 1/4}; violations between eps and 3 eps are not judged; the repaired categorical defect "
         "is listed as fixed.",
         "DESIGN.md section 3 (C12)"),
+    "C13": (
+        "TLA+ definitions of the documented penalties with their algebraic properties model-checked by TLC; real "
+        "regularizer values validated by TLC against the definitions",
+        "TLC checks on every small kernel (lattices 2x2, 2x3, 3x2 (+2x2x2 thorough); PWL kernels of 2-5 rows, cyclic or "
+        "not) that the penalties are non-negative, linear in l1 and l2, that the Laplacians vanish exactly on constant "
+        "functions, torsion on additively separable kernels, Hessian on outputs linear in the index and wrinkle on "
+        "quadratic ones. Real LaplacianRegularizer / TorsionRegularizer (lattice) and Laplacian / Hessian / Wrinkle "
+        "(PWL) objects, and the layers' kernel_regularizer path, are evaluated on random dyadic kernels (rank >= 3 with "
+        "unequal sizes, units 1-2, scalar and per-dimension amounts with zeros); TLC recomputes each documented sum "
+        "exactly and compares.",
+        "Dyadic kernels/amounts so the expected value is exact; relative tolerance 2e-5.",
+        "DESIGN.md section 3 (C13)"),
     "C19": (
         "TLA+ transcription of custom_reduce_prod's gradient formula checked equal to the product's derivative for "
         "every zero pattern by TLC; real tf.GradientTape gradients validated by TLC",
